@@ -58,25 +58,25 @@ theorem cfg_unit {c : Cfg} (hc : cfg? = some c.toFlags) : c.unitHashable = true 
 
 /-- the round trip, all invertible types, all values; `…_partial`: the full statement (no guard) is false, see the
 counter-examples below -/
-theorem ofPy_toPy_partial (c : Cfg) (hc : cfg? = some c.toFlags) (τ : Ty) (v : Val)
+theorem ofPy_toPy_partial (c : Cfg) (hc : cfg? = some c.toFlags) (ht : c.tryUnpack = false) (τ : Ty) (v : Val)
     (hτ : PyInvertible c τ) (hv : HasTy c τ v) :
     (toPy c false τ v).bind (ofPy c τ) = .ok v := by
-  obtain ⟨py, h1, h2, _, _⟩ := (roundtrip_all c (cfg_unit hc) τ).1 false v hτ hv
+  obtain ⟨py, h1, h2, _, _⟩ := (roundtrip_all c (cfg_unit hc) ht τ).1 false v hτ hv
   rw [h1]; exact h2
 
 /-- the same for the rendering of map keys / set elements (`comparable=True`: pairs as tuples, unions as
 `(name, value)`), and the object is hashable -/
-theorem ofPy_toPy_key_partial (c : Cfg) (hc : cfg? = some c.toFlags) (τ : Ty) (v : Val)
+theorem ofPy_toPy_key_partial (c : Cfg) (hc : cfg? = some c.toFlags) (ht : c.tryUnpack = false) (τ : Ty) (v : Val)
     (hτ : inv c true τ = true) (hv : HasTy c τ v) :
     ∃ py, toPy c true τ v = .ok py ∧ ofPy c τ py = .ok v ∧ py.hashable c = true := by
-  obtain ⟨py, h1, h2, h3, _⟩ := (roundtrip_all c (cfg_unit hc) τ).1 true v hτ hv
+  obtain ⟨py, h1, h2, h3, _⟩ := (roundtrip_all c (cfg_unit hc) ht τ).1 true v hτ hv
   exact ⟨py, h1, h2, h3 rfl⟩
 
 /-- different values have different Python objects -/
-theorem toPy_injective_partial (c : Cfg) (hc : cfg? = some c.toFlags) (τ : Ty) (u v : Val)
+theorem toPy_injective_partial (c : Cfg) (hc : cfg? = some c.toFlags) (ht : c.tryUnpack = false) (τ : Ty) (u v : Val)
     (hτ : PyInvertible c τ) (hu : HasTy c τ u) (hv : HasTy c τ v) (h : toPy c false τ u = toPy c false τ v) : u = v := by
-  have h1 := ofPy_toPy_partial c hc τ u hτ hu
-  have h2 := ofPy_toPy_partial c hc τ v hτ hv
+  have h1 := ofPy_toPy_partial c hc ht τ u hτ hu
+  have h2 := ofPy_toPy_partial c hc ht τ v hτ hv
   rw [h] at h1
   rw [h1] at h2
   exact Except.ok.inj h2
@@ -108,21 +108,22 @@ theorem field_names_unchanged_without_collision (flat : List (Path × Ty)) (infe
 
 /-- field names are stable: the layout is a function of the type alone (`pairLayout τ`), and the record every value
 of a named pair converts to has exactly the layout's names as keys, in the layout's order -/
-theorem layout_stable (c : Cfg) (hc : cfg? = some c.toFlags) (a : Ann) (l r : Ty) (v : Val)
+theorem layout_stable (c : Cfg) (hc : cfg? = some c.toFlags) (ht : c.tryUnpack = false) (a : Ann) (l r : Ty) (v : Val)
     (hτ : PyInvertible c (.pair a l r)) (hv : HasTy c (.pair a l r) v)
     (p2k : List (Path × String)) (hm : (pairLayout (.pair a l r)).pathToKey = some p2k) :
     ∃ fields, toPy c false (.pair a l r) v = .ok (.record fields) ∧ fields.map (·.1) = p2k.map (·.2) :=
-  pair_record_keys c (cfg_unit hc) a l r v hτ hv p2k hm
+  pair_record_keys c (cfg_unit hc) ht a l r v hτ hv p2k hm
 
 /-- `ContractData.decode` / `encode` are mutual inverses (given that the Micheline coding of values round-trips,
 which is C11): decoding the Micheline form of `v` gives an object whose encoding is that Micheline form again, and
 decoding that gives the same object -/
-theorem encode_decode_inverse {M : Type} (k : Codec M) (c : Cfg) (hc : cfg? = some c.toFlags) (τ : Ty) (v : Val)
+theorem encode_decode_inverse {M : Type} (k : Codec M) (c : Cfg) (hc : cfg? = some c.toFlags) (ht : c.tryUnpack = false)
+    (τ : Ty) (v : Val)
     (hk : k.ofMich τ (k.toMich τ v) = .ok v) (hτ : PyInvertible c τ) (hv : HasTy c τ v) :
     ∃ py, decode k c τ (k.toMich τ v) = .ok py
       ∧ encode k c τ py = .ok (k.toMich τ v)
       ∧ (encode k c τ py).bind (decode k c τ) = .ok py := by
-  obtain ⟨py, h1, h2, _, _⟩ := (roundtrip_all c (cfg_unit hc) τ).1 false v hτ hv
+  obtain ⟨py, h1, h2, _, _⟩ := (roundtrip_all c (cfg_unit hc) ht τ).1 false v hτ hv
   refine ⟨py, by simp [decode, hk, Except.bind, h1], by simp [encode, h2, Except.map], ?_⟩
   simp [encode, decode, h2, Except.map, Except.bind, hk, h1]
 
@@ -192,6 +193,62 @@ theorem input_forms_examples :
     ∧ okVal (ofPy cfgNow (.scalar {} .blsFr) (.int (-1))) (.int (frModulus - 1)) = true
     ∧ okVal (ofPy cfgNow (.scalar {} .timestamp) (.str "1970-01-01T00:00:01Z")) (.int 1) = true
     ∧ okVal (ofPy cfgNow (.scalar {} .timestamp) (.str " 12 ")) (.int 12) = true := by
+  decide +kernel
+
+/-! ### `try_unpack=True`: a display mode, outside the round trip
+
+`ht : c.tryUnpack = false` in the theorems above says which call they are about (`to_python_object()` as
+`ContractData.decode` makes it).  With `try_unpack=True` every `bytes` leaf is shown as `blind_unpack(value)`; the
+mirror `blindUnpack` has the whole decision (seven readings tried in order, by length and tag bytes) and takes the
+base58 texts and the content of PACKed data as parameters. -/
+
+/-- a configuration with `try_unpack=True` in which PACK "a" (`0x05 01 00000001 61`) unpacks to `'a'` -/
+def cfgUnpack : Cfg :=
+  { unitHashable := true, pairLtLex := true, frModulus := frModulus, tryUnpack := true
+    b58 := fun pre pl => pre ++ ":" ++ toString pl.length
+    unpackMich := fun d => if d = [1, 0, 0, 0, 1, 97] then some (.str "a") else none }
+
+/-- the mode is neither invertible nor injective — inherent: the bytes `0x61` and the bytes of PACK "a" are both shown
+as `'a'`, which `from_python_object` of `bytes` does not take back; a map with these two keys is shown with one -/
+theorem try_unpack_counterexample :
+    okPy (toPy cfgUnpack false (.scalar {} .bytes) (.bytes [97])) (.str "a") = true
+    ∧ okPy (toPy cfgUnpack false (.scalar {} .bytes) (.bytes [5, 1, 0, 0, 0, 1, 97])) (.str "a") = true
+    ∧ isErr (ofPy cfgUnpack (.scalar {} .bytes) (.str "a")) .assertion = true
+    ∧ okPy (toPy cfgUnpack false (.map {} (.scalar {} .bytes) natT)
+        (.map [(.bytes [5, 1, 0, 0, 0, 1, 97], .int 1), (.bytes [97], .int 2)])) (.dict [(.str "a", .int 2)]) = true := by
+  decide +kernel
+
+/-- every 4-byte value is shown as a chain id -/
+theorem blindUnpack_four_bytes (c : Cfg) (d : List Nat) (h : d.length = 4) : blindUnpack c d = .str (c.b58 "Net" d) := by
+  simp [blindUnpack, h]
+
+/-- the bytes that stay bytes: no base58 reading fits, the value is not readable PACKed data and is not UTF-8 -/
+theorem blindUnpack_stays_bytes (c : Cfg) (d : List Nat) (h4 : d.length ≠ 4) (ha : unforgeAddressPlan d = none)
+    (hk : unforgeKeyPlan d = none) (h96 : d.length ≠ 96) (h64 : d.length ≠ 64)
+    (hp : ∀ body, d = 5 :: body → c.unpackMich body = none) (hu : utf8Decode d = none) :
+    blindUnpack c d = .bytes d := by
+  unfold blindUnpack
+  simp only [h4, ha, hk, h96, h64, if_false, hu]
+  split
+  · rename_i o ho
+    split at ho
+    · rename_i body; rw [hp body rfl] at ho; cases ho
+    · cases ho
+  · rfl
+
+/-- the order of the readings, kernel-evaluated: 21 bytes with tag 0 → tz1 key hash; 22 bytes `01…00` → KT1; 33 bytes
+with tag 0 → edpk; 64 bytes → sig; `0x05` alone (not readable) and `0xff` (not UTF-8) stay bytes; `0xc3a9` is `'é'` -/
+theorem blindUnpack_examples :
+    PyObj.beq (blindUnpack cfgUnpack (0 :: List.replicate 20 7)) (.str "tz1:20") = true
+    ∧ PyObj.beq (blindUnpack cfgUnpack (1 :: List.replicate 20 7 ++ [0])) (.str "KT1:20") = true
+    ∧ PyObj.beq (blindUnpack cfgUnpack (0 :: List.replicate 32 7)) (.str "edpk:32") = true
+    ∧ PyObj.beq (blindUnpack cfgUnpack (List.replicate 64 7)) (.str "sig:64") = true
+    ∧ PyObj.beq (blindUnpack cfgUnpack (List.replicate 96 200)) (.str "BLsig:96") = true
+    ∧ PyObj.beq (blindUnpack cfgUnpack [5]) (.str "\x05") = true
+    ∧ PyObj.beq (blindUnpack cfgUnpack [5, 3, 175]) (.bytes [5, 3, 175]) = true
+    ∧ PyObj.beq (blindUnpack cfgUnpack [255]) (.bytes [255]) = true
+    ∧ PyObj.beq (blindUnpack cfgUnpack [195, 169]) (.str "é") = true
+    ∧ PyObj.beq (blindUnpack cfgUnpack [237, 160, 128]) (.bytes [237, 160, 128]) = true := by
   decide +kernel
 
 /-! ### the excluded classes really fail (kernel-evaluated on the mirror; replayed on the real code by the check) -/
